@@ -84,7 +84,14 @@ func (l *Ledger) SubmitSome(nodes []*simnode.Node) (submitted, accepted int) {
 		view := nodes[s.T.Choose("round.txview", len(nodes))]
 		var tx *types.Transaction
 		var what string
-		pv, st := view.Do(func() { tx, what = s.GenTx(view, l.Mix) })
+		contract := l.Mix.Contracts > 0 && s.T.Choose("round.contract", l.Mix.Contracts) == 0
+		pv, st := view.Do(func() {
+			if contract {
+				tx, what = s.GenContractTx(view)
+			} else {
+				tx, what = s.GenTx(view, l.Mix)
+			}
+		})
 		if pv != nil {
 			s.R.Trouble("GenTx panicked: %v\n%s", pv, st)
 		}
